@@ -649,3 +649,59 @@ Definition natives : Type := string -> option (M unit).
         end
       else Some (ROk tt s)
     end.
+
+(* ---------- iteration helpers used by the property statements ---------- *)
+Fixpoint steps (nf : natives) (n : nat) (s : state) : option state :=
+  match n with
+  | O => Some s
+  | S m => match fetch_and_run nf s with
+           | ROk _ s' => steps nf m s'
+           | _ => None
+           end
+  end.
+
+Fixpoint rnexts (k : nat) (s : state) : option state :=
+  match k with
+  | O => Some s
+  | S j => match rnext s with
+           | ROk _ s' => rnexts j s'
+           | _ => None
+           end
+  end.
+
+(* the instruction meter and the captured stdout are not part of the reversible state *)
+Definition erase_mo (s : state) : state := set_out (set_meter s 0%Z) EmptyString.
+Definition eq_rev (a b : state) : Prop := erase_mo a = erase_mo b.
+
+(* the reverse log ends at an instruction boundary *)
+Definition log_ok (s : state) : Prop :=
+  match rlog s with
+  | Some [] => True
+  | Some (RSetIp _ :: _) => True
+  | _ => False
+  end.
+
+(* every stack is at least as long as the mark of the current context *)
+Definition wf_marks (s : state) : Prop :=
+  ds_len (cx s) <= length (ds s) /\ rs_len (cx s) <= length (rs s) /\
+  ls_len (cx s) <= length (loops s) /\ ss_ptr (cx s) <= length (special s).
+
+Definition not_resolve (s : state) : Prop :=
+  forall name, nth_error (code s) (ip s) <> Some (OResolve name).
+
+Definition erase_log (s : state) : state := set_rlog s None.
+
+Definition res_map {A} (f : state -> state) (r : res A) : res A :=
+  match r with
+  | ROk a s => ROk a (f s)
+  | RErr k p s => RErr k p (f s)
+  | RPanic => RPanic
+  | RUnsup => RUnsup
+  end.
+
+Definition res_state {A} (r : res A) : option state :=
+  match r with
+  | ROk _ s => Some s
+  | RErr _ _ s => Some s
+  | _ => None
+  end.
